@@ -894,10 +894,10 @@ Proof. unfold spec_range. apply filter_ext. intros y. reflexivity. Qed.
 
 Lemma project_spec f k b iv sp :
   ssorted (map fst (f_es f)) = true ->
-  wf_op f (OpProject k b iv sp) = true ->
+  wf_op1 f (OpProject k b iv sp) = true ->
   project f k b iv sp = Some (spec_project f k b iv).
 Proof.
-  intros Hs Hwf. cbn [wf_op] in Hwf.
+  intros Hs Hwf. cbn [wf_op1] in Hwf.
   apply andb_true_iff in Hwf. destruct Hwf as [Hk0 Hsp].
   unfold project, proj_source, proj_reversed, spec_project.
   fold (proj_of (f_d f) k b iv (if k <? 0 then rev (indexed (f_es f)) else spec_default_iter f)).
@@ -1516,4 +1516,44 @@ Proof.
   intros Hs Ho Hl.
   assert (Hf : fmt_U f = u) by (unfold fmt_U; rewrite Ho; reflexivity).
   rewrite <- Hf in *. apply dispatch_full; assumption.
+Qed.
+
+(* ------------------------------------------------------------------ histories (grow, then traverse) *)
+
+Lemma ins_pay_sorted c t es : sorted_t t = true -> pay_sorted es -> pay_sorted (ins c t es).
+Proof.
+  intros Ht. unfold pay_sorted. induction es as [|[c' t'] es IH]; intros H.
+  - cbn [ins]. constructor; [exact Ht|constructor].
+  - cbn [ins]. destruct (c <? c'); [constructor; [exact Ht|exact H]|].
+    destruct (c =? c'); [exact H|]. inversion H; subst. constructor; auto.
+Qed.
+
+Lemma post_of_pay_sorted dt cs : forall es,
+  sorted_t dt = true -> pay_sorted es -> pay_sorted (post_of dt es cs).
+Proof.
+  induction cs as [|c cs IH]; intros es Ht H; [exact H|].
+  cbn [post_of fold_left]. apply IH; [exact Ht|]. apply ins_pay_sorted; assumption.
+Qed.
+
+Lemma dflt_sorted d es : sorted_t (dflt d es) = true.
+Proof. destruct es as [|[c [v|sub]] r]; reflexivity. Qed.
+
+Lemma history_full f lo hi step :
+  ssorted (map fst (f_es f)) = true -> pay_sorted (f_es f) ->
+  let f' := set_es f (snd (iter_range_shape_ref f lo hi step)) in
+  f_es f' = spec_post (f_d f) (f_es f) (zrange lo hi step) /\
+  ssorted (map fst (f_es f')) = true /\ pay_sorted (f_es f') /\
+  get_active f' = match f_active f with
+                  | Some a => a
+                  | None => (0, match f_shape f with
+                                | Some s => if s =? 0 then est_shape (f_es f') else s
+                                | None => est_shape (f_es f')
+                                end)
+                  end.
+Proof.
+  intros Hs Hp. cbn zeta. unfold iter_range_shape_ref. cbn [snd set_es f_es].
+  rewrite shape_ref_loop_post. unfold spec_post.
+  fold (post_of (dflt (f_d f) (f_es f)) (f_es f) (zrange lo hi step)).
+  split; [reflexivity|]. split; [apply post_of_sorted; exact Hs|].
+  split; [apply post_of_pay_sorted; [apply dflt_sorted|exact Hp]|reflexivity].
 Qed.
